@@ -5,6 +5,7 @@ import Orx.GenThms.Vec
 import Orx.GenThms.Arr
 import Orx.GenThms.Range
 import Orx.GenThms.Iter
+import Orx.GenThms.Surface
 /-! # C06 skip_to_end stops the iteration for everyone, permanently -/
 namespace Orx.Props.C06
 open Orx Orx.KS
@@ -72,5 +73,24 @@ particular neither counter is written (the repaired defect D2 stored `usize::MAX
 theorem source_iter_skip (init : Option Nat) (R Y : Nat) (C : Bool) (evs : List Ev) :
     Iter.skip_to_end (iter init) (ist R Y C evs) = .ok () (ist R Y true (evs ++ [.st .C .seqcst 1])) :=
   iter_skip_to_end init R Y C evs
+
+section SurfaceApi
+open Orx.GenThms.Surface Orx.Gen
+
+/-- the whole inherent API: besides `skip_to_end` / `early_exit` nothing stores into a counter, and nothing can undo a skip -/
+theorem source_no_operation_rewinds :
+    fnsOf "" "AtomicCounter" = [["new", "fetch_and_add", "fetch_and_increment", "current", "store", "swap"]] ∧
+    fnsOf "" "ConIterOfSlice" = [["new", "as_slice"]] ∧ fnsOf "" "ConIterOfRange" = [["new", "range"]] ∧
+    fnsOf "" "ConIterOfVec" = [["new", "take_one", "take_slice", "split_off_right"]] ∧
+    fnsOf "" "ConIterOfArray" = [["new", "take_one", "take_slice", "split_off_right"]] ∧
+    fnsOf "" "ConIterOfIter" = [["new", "mut_iter", "progress_yielded_counter", "mark_completed", "complete_on_unwind"]] ∧
+    fnsOf "" "CompleteOnUnwind" = [["disarm"]] ∧ fnsOf "" "Taken" = [["new"]] ∧
+    fnsOf "" "Cloned" = [["new", "underlying_iter"]] ∧ fnsOf "" "Copied" = [["new", "underlying_iter"]] ∧
+    sameSet (implsOf "") ["AtomicCounter", "ConIterOfSlice", "ConIterOfRange", "ConIterOfVec", "ConIterOfArray", "ConIterOfIter",
+      "CompleteOnUnwind", "Taken", "Cloned", "Copied", "BufferedIter"] = true ∧
+    (surface.filter (fun r => r.tr == "fn")).map (·.fns) = [["fold"], ["for_each", "for_each_with_ids"]] :=
+  Orx.GenThms.Surface.the_inherent_api
+
+end SurfaceApi
 
 end Orx.Props.C06
